@@ -714,6 +714,9 @@ func c17(c *Ctx) {
 	}
 
 	// R5 kinds covered
+	c.Rule("R8", "E4 resolver chains (shared with C20.R4)", "the record limits reach the provider as given: their chains are option → environment → default with nothing that unsets or clamps a value (a length limit of 0 truncates to nothing, negative limits mean unlimited)", 2)
+	ruleLogSettingChains(c, ix, "R8")
+
 	c.Rule("R7", "E3 must-pass in loops", "truncate: every character the scan keeps is counted against the limit (range loop: each continuing iteration increments the counter; builder loop: an increment between any two writes)", 1)
 	ruleTruncateCounts(c, ix, "R7", "sdk/log")
 	c.Rule("R5", "E2 exhaustiveness", "applyValueLimits handles every log.Kind that can contain strings: String ↦ truncate(limit), Slice ↦ recursion, Map ↦ dedup + applyAttrLimits; other kinds unchanged", 3)
